@@ -49,6 +49,11 @@ CHECKS = {
                      'GenOrder.tla checks the order laws and the add/sub inverse law on the model for every pair / triple of the domain and writes every pair with the model answer; the code must answer the same on all of them (so the laws transfer to the code on the domain), '
                      'and antisymmetry / reflexivity are also observed directly on the code.',
                 note='trusted: TLC; domain: vectors of length <= 2 (quick) / 3 (thorough) over {-inf,-2,-1,-0,+0,1,2,+inf}, 7 goal shapes; NaN excluded (statement: finite).'),
+    'C15': dict(category='model_checking', design_ref='DESIGN.md section 6 C15', technique='ParallelEval.tla (fold_reduce with pruning over every cut of every candidate sequence) model-checked with TLC; TLC-generated contexts replayed into evaluate_all under pools of 1-8 threads, judged by JudgeParallel.tla; solver runs under a grid of pool layouts judged by the VrpModel oracle',
+                text='ParallelEval.tla models evaluate_all as chunked folds with the best-so-far pruning and a reducing selector; TLC checks for every candidate sequence up to 4 and every set of cuts that the result is the sequential minimum when activity-level parts are non-negative, and finds the counterexample when they can be negative. '
+                     'GenParallel.tla enumerates contexts (two feasible tours + remaining jobs) over fixed and seeded integer worlds, metric and non-metric; the harness evaluates each (route, job) pair alone and calls evaluate_all in pools of 1, 2, 3, 4, 8 threads (repeated); every run must return the minimal cost vector. '
+                     'Generated problems are solved under 6 pool layouts and every returned solution is judged with all invariants of C01-C03.',
+                note='trusted: TLC; rayon picks the actual splits (pool size and repetitions are the only control); deterministic BestResultSelector; layout runs exclude the strata with recorded defects of C01-C03.'),
     'C16': dict(category='model_checking', design_ref='DESIGN.md section 6 C16', technique='TLC enumerates matrix sets and queries with the model answer (Routing.tla), replayed into the real transport cost providers, compared by JudgeRouting.tla',
                 text='Routing.tla defines when a matrix set is consistent, which matrix a (profile, time) query selects, linear interpolation between timestamps (exact rationals), duration scaling and unscaled distance. '
                      'GenRouting.tla enumerates consistent and inconsistent sets with pairwise distinct entries and every query; the harness builds the real provider (create_matrix_transport_cost, the pragmatic named-profile path with errorCodes, the coordinate approximation) and answers every query.',
